@@ -731,6 +731,111 @@ class Body:
                 return a * b_
         return None
 
+    def affine(self, op, depth=0, phi=False):
+        """(phi=True: a local assigned on several paths, or by something unreadable, is a leaf ('local', l) instead of
+        making the whole form unreadable; call leaves carry the places their arguments borrow.)
+        Affine form of operand op: ({leaf: coefficient}, constant), following copies, casts, `+` / `-` (checked or
+        not), multiplication by a constant and the integer add/sub methods of std. Leaves are ('param', l),
+        ('proj', l, projection) for a field of a local, ('mem', 'Adt.field') for a field behind a reference, and
+        ('call', name) for any other call result (opaque: `max`, `min`, a getter ...). None when the value has several
+        definitions that disagree or is built by something else (so: not decidable here)."""
+        k = op_const_bits(op)
+        if k is not None:
+            return ({}, k)
+        if depth > 12 or op['k'] not in ('copy', 'move'):
+            return None
+        pl = op['place']
+        proj = pl['p']
+        checked0 = len(proj) == 1 and proj[0]['k'] == 'field' and proj[0]['i'] == 0
+        if proj and any(e['k'] == 'deref' for e in proj):
+            m = mem_loc(pl)
+            return ({('mem', m): 1}, 0) if m else None
+        ds = self.defs.get(pl['l'], [])
+        if not ds:
+            return ({(('proj', pl['l'], place_str(pl)) if proj else ('param', pl['l'])): 1}, 0)
+        if phi and not proj and len(ds) > 1:
+            return ({('local', pl['l']): 1}, 0)
+        forms = []
+        for (p_, kind, data) in ds:
+            f = None
+            if kind == 'call' and phi and not proj and not re.search(r'::(wrapping_add|saturating_add|checked_add|wrapping_sub|saturating_sub|checked_sub)$', data.name):
+                def argplace(a, d_=0):
+                    if a['k'] not in ('copy', 'move'):
+                        return str(op_const_bits(a))
+                    if a['place']['p'] or d_ > 6:
+                        return place_str(a['place'])
+                    sd = self.single_def(a['place']['l'])
+                    if sd and sd[1] == 'assign' and not sd[2]['place']['p']:
+                        rv_ = sd[2]['rv']
+                        if rv_['k'] == 'ref':
+                            inner = rv_['place']
+                            if all(e['k'] == 'deref' for e in inner['p']):
+                                return argplace({'k': 'copy', 'place': {'l': inner['l'], 'p': []}}, d_ + 1)
+                            return place_str(inner)
+                        if rv_['k'] in ('use', 'cast') and rv_['op']['k'] in ('copy', 'move'):
+                            return argplace(rv_['op'], d_ + 1)
+                    return place_str(a['place'])
+                f = ({('call', strip_generics(data.name), tuple(argplace(a) for a in data.args)): 1}, 0)
+            elif kind == 'call':
+                cs = data
+                m = re.search(r'::(wrapping_add|saturating_add|checked_add|wrapping_sub|saturating_sub|checked_sub)$', cs.name)
+                if m and len(cs.args) == 2 and not proj:
+                    a, b_ = self.affine(cs.args[0], depth + 1, phi), self.affine(cs.args[1], depth + 1, phi)
+                    if a is not None and b_ is not None:
+                        sg = -1 if 'sub' in m.group(1) else 1
+                        t = dict(a[0])
+                        for (k_, c_) in b_[0].items():
+                            t[k_] = t.get(k_, 0) + sg * c_
+                        f = ({k_: c_ for (k_, c_) in t.items() if c_}, a[1] + sg * b_[1])
+                else:
+                    f = ({('call', strip_generics(cs.name) + (place_str(pl)[place_str(pl).find('.'):] if proj and '.' in place_str(pl) else '')): 1}, 0)
+            elif kind == 'assign' and not data['place']['p']:
+                rv = data['rv']
+                if rv['k'] in ('use', 'cast') and not proj:
+                    f = self.affine(rv['op'], depth + 1, phi)
+                elif rv['k'] == 'binop' and (not proj or (checked0 and rv['op'].endswith('WithOverflow'))):
+                    o = rv['op'].replace('WithOverflow', '').replace('Unchecked', '')
+                    a, b_ = self.affine(rv['a'], depth + 1, phi), self.affine(rv['b'], depth + 1, phi)
+                    if a is not None and b_ is not None:
+                        if o in ('Add', 'Sub'):
+                            sg = -1 if o == 'Sub' else 1
+                            t = dict(a[0])
+                            for (k_, c_) in b_[0].items():
+                                t[k_] = t.get(k_, 0) + sg * c_
+                            f = ({k_: c_ for (k_, c_) in t.items() if c_}, a[1] + sg * b_[1])
+                        elif o == 'Mul' and (not a[0] or not b_[0]):
+                            (v, c) = (b_, a[1]) if not a[0] else (a, b_[1])
+                            f = ({k_: c_ * c for (k_, c_) in v[0].items() if c_ * c}, v[1] * c)
+                elif rv['k'] in ('use',) and proj:
+                    # a field of a local that is itself a copy of something: follow the copy
+                    o_ = rv['op']
+                    if o_['k'] in ('copy', 'move'):
+                        f = self.affine({'k': 'copy', 'place': {'l': o_['place']['l'], 'p': o_['place']['p'] + proj}}, depth + 1, phi)
+            if f is None:
+                return ({('local', pl['l']): 1}, 0) if (phi and not proj) else None
+            forms.append(f)
+        if not forms or any(f != forms[0] for f in forms[1:]):
+            return ({('local', pl['l']): 1}, 0) if (phi and not proj) else None
+        return forms[0]
+
+    def affine_alts(self, op, depth=0):
+        """The alternative affine forms of op when the value is chosen between several (a local assigned on different
+        paths: `x.unwrap_or(y)` written out, an if/else): list of forms, or None when one alternative is unreadable."""
+        if op['k'] in ('copy', 'move') and not op['place']['p'] and depth < 6:
+            ds = self.defs.get(op['place']['l'], [])
+            if len(ds) > 1 and all(kind == 'assign' and not data['place']['p'] and data['rv']['k'] in ('use', 'cast') for (_p, kind, data) in ds):
+                out = []
+                for (_p, kind, data) in ds:
+                    a = self.affine_alts(data['rv']['op'], depth + 1)
+                    if a is None:
+                        return None
+                    out.extend(x for x in a if x not in out)
+                return out
+            if len(ds) == 1 and ds[0][1] == 'assign' and not ds[0][2]['place']['p'] and ds[0][2]['rv']['k'] in ('use', 'cast'):
+                return self.affine_alts(ds[0][2]['rv']['op'], depth + 1)
+        a = self.affine(op)
+        return None if a is None else [a]
+
     def trace_local(self, l, seen=None, through_cast=True):
         """Follow copies/moves (and casts) backwards from local l.
         Returns list of origins: ('param', idx) | ('call', CallSite) | ('rv', point, rvalue) |
